@@ -51,46 +51,49 @@ func CreateInMemory(parse parser.Parser) (*InMemory, error) {
 }
 
 func createInMemory(cursor *InMemory, parse parser.Parser, pos int) error {
-	n, isEnd, err := parse.Pull()
+	// Consume the events in a loop rather than recursing once per event, so
+	// that stack use does not grow with the number of nodes.
+	for {
+		n, isEnd, err := parse.Pull()
 
-	if errors.Is(err, io.EOF) {
-		for c := cursor; c.inherited != nil; c = c.parent {
-			pos = finishNamespaces(c, pos)
+		if errors.Is(err, io.EOF) {
+			for c := cursor; c.inherited != nil; c = c.parent {
+				pos = finishNamespaces(c, pos)
+			}
+
+			return nil
 		}
 
-		return nil
+		if err != nil {
+			return err
+		}
+
+		if ns, ok := n.(node.Namespace); ok && !isEnd {
+			pos = addNamespace(ns, cursor, pos)
+			continue
+		}
+
+		pos = finishNamespaces(cursor, pos)
+
+		if isEnd {
+			cursor = cursor.parent
+			continue
+		}
+
+		switch v := n.(type) {
+		case node.Attribute:
+			pos++
+			cursor.attributes = append(cursor.attributes, createNonElement(v, cursor, pos))
+		case node.Element:
+			pos++
+			next, nextPos := createElement(v, cursor, pos)
+			cursor.nodes = append(cursor.nodes, next)
+			cursor, pos = next, nextPos
+		default:
+			pos++
+			cursor.nodes = append(cursor.nodes, createNonElement(v, cursor, pos))
+		}
 	}
-
-	if err != nil {
-		return err
-	}
-
-	if ns, ok := n.(node.Namespace); ok && !isEnd {
-		pos = addNamespace(ns, cursor, pos)
-		return createInMemory(cursor, parse, pos)
-	}
-
-	pos = finishNamespaces(cursor, pos)
-
-	if isEnd {
-		return createInMemory(cursor.parent, parse, pos)
-	}
-
-	switch v := n.(type) {
-	case node.Attribute:
-		pos++
-		cursor.attributes = append(cursor.attributes, createNonElement(v, cursor, pos))
-	case node.Element:
-		pos++
-		next, pos := createElement(v, cursor, pos)
-		cursor.nodes = append(cursor.nodes, next)
-		return createInMemory(next, parse, pos)
-	default:
-		pos++
-		cursor.nodes = append(cursor.nodes, createNonElement(v, cursor, pos))
-	}
-
-	return createInMemory(cursor, parse, pos)
 }
 
 func addNamespace(ns node.Namespace, cursor *InMemory, pos int) int {
